@@ -1,5 +1,6 @@
 import Q1t.Proofs.OpenQasmComplex
 import Q1t.Proofs.OpenQasmCtrl2
+import Q1t.Proofs.OpenQasmCtrl3
 /-! C11: the complex / real model also satisfies `LawfulAngle2` (quarter angles, sums, `±π/4`). -/
 noncomputable section
 namespace Q1t.OpenQasm
@@ -51,5 +52,19 @@ theorem lawfulAngle2Complex : LawfulAngle2 ℂ ℝ where
   sin_npi_four := by
     show ((Real.sin (-Real.pi / (((4 : ℕ) : ℝ) * (10 : ℝ) ^ (0 : ℤ))) : ℝ) : ℂ) = -((Real.sqrt 2 / 2 : ℝ) : ℂ)
     rw [four_eq, neg_div, Real.sin_neg, Real.sin_pi_div_four]; push_cast; rfl
+
+theorem lawfulAngle3Complex : LawfulAngle3 ℂ ℝ where
+  o_cos x := by
+    show ((Real.cos (x / (((4 : ℕ) : ℝ) * (10 : ℝ) ^ (0 : ℤ)) / 2) : ℝ) : ℂ) = (Real.cos (x / 2 / 2 / 2) : ℝ)
+    rw [four_eq]; congr 2; ring
+  o_sin x := by
+    show ((Real.sin (x / (((4 : ℕ) : ℝ) * (10 : ℝ) ^ (0 : ℤ)) / 2) : ℝ) : ℂ) = (Real.sin (x / 2 / 2 / 2) : ℝ)
+    rw [four_eq]; congr 2; ring
+  on_cos x := by
+    show ((Real.cos (-x / (((4 : ℕ) : ℝ) * (10 : ℝ) ^ (0 : ℤ)) / 2) : ℝ) : ℂ) = (Real.cos (x / 2 / 2 / 2) : ℝ)
+    rw [four_eq, show -x / 4 / 2 = -(x / 2 / 2 / 2) by ring, Real.cos_neg]
+  on_sin x := by
+    show ((Real.sin (-x / (((4 : ℕ) : ℝ) * (10 : ℝ) ^ (0 : ℤ)) / 2) : ℝ) : ℂ) = -((Real.sin (x / 2 / 2 / 2) : ℝ) : ℂ)
+    rw [four_eq, show -x / 4 / 2 = -(x / 2 / 2 / 2) by ring, Real.sin_neg]; push_cast; rfl
 
 end Q1t.OpenQasm
